@@ -22,7 +22,7 @@ EXTENDS MultiSnap, IOUtils, Json
 Trace == ndJsonDeserialize(IOEnv.VERIF_TRACE)
 
 VARIABLE l
-tvars == <<recs, worlds, env, chg, clock, status, waits, lanes, hasUndo, chgOf, rdy, panicked, l>>
+tvars == <<recs, worlds, env, chg, clock, pass, status, waits, lanes, hasUndo, chgOf, rdy, panicked, l>>
 
 TrSnaps == {"some-snap", "some-other-snap", "snap-c"}
 TrOrder == <<"some-snap", "some-other-snap", "snap-c">>
@@ -48,13 +48,14 @@ PostAll == \A s \in Snaps : PostSnap(s)
 \* ... and the real status of every task of the change
 PostStatus == \A t \in 1..Len(Ev.tst) : status'[t] = Ev.tst[t]
 
-engineIdle == /\ status' = [t \in Tasks |-> "Done"] /\ waits' = [t \in Tasks |-> {}] /\ lanes' = [t \in Tasks |-> <<0>>]
+engineIdle == /\ pass' = NoPass
+              /\ status' = [t \in Tasks |-> "Done"] /\ waits' = [t \in Tasks |-> {}] /\ lanes' = [t \in Tasks |-> <<0>>]
               /\ hasUndo' = [t \in Tasks |-> FALSE] /\ chgOf' = [t \in Tasks |-> 2]
               /\ rdy' = [c \in 1..2 |-> FALSE] /\ panicked' = FALSE
 
 TInit == /\ recs = [s \in Snaps |-> SS!EmptyRec] /\ worlds = [s \in Snaps |-> SS!EmptyWorld]
          /\ env = [retain |-> TrRet, onClassic |-> FALSE, boot |-> {}, kernel |-> FALSE]
-         /\ chg = IdleChg /\ clock = 0
+         /\ chg = IdleChg /\ clock = 0 /\ pass = NoPass
          /\ status = [t \in Tasks |-> "Done"] /\ waits = [t \in Tasks |-> {}] /\ lanes = [t \in Tasks |-> <<0>>]
          /\ hasUndo = [t \in Tasks |-> FALSE] /\ chgOf = [t \in Tasks |-> 2]
          /\ rdy = [c \in 1..2 |-> FALSE] /\ panicked = FALSE
@@ -73,7 +74,7 @@ TCtx == /\ IsEv("MCtx") /\ Idle
         /\ env' = DecEnv(Ev.st)
         /\ SS!Retain(env') = Ev.st.retainEff                                 \* the real refreshRetain()
         /\ chg' = IdleChg
-        /\ UNCHANGED <<clock, status, waits, lanes, hasUndo, chgOf, rdy, panicked>>
+        /\ UNCHANGED <<clock, pass, status, waits, lanes, hasUndo, chgOf, rdy, panicked>>
         /\ PostAll
 
 \* wait-tasks of the real graph: within the snap's own chain, earlier tasks only, the predecessor among them
@@ -107,7 +108,7 @@ TRequestOk ==
           /\ Len(Ev.strays) = 0
           /\ WaitsOK(ly, W)
           /\ StartMulti(kind, txn, sel, ly, Ev.op.now, L, W)
-    /\ clock' = Ev.op.now
+    /\ clock' = Ev.op.now /\ pass' = NoPass
     /\ UNCHANGED <<recs, worlds, env>>
     /\ PostAll /\ PostStatus
 
@@ -115,7 +116,7 @@ TRequestRefused ==
     /\ IsEv("MRequest") /\ ~Ev.ok /\ Idle
     /\ LET sel == [i \in 1..Len(Ev.op.snaps) |-> [snap |-> Ev.op.snaps[i].snap, rev |-> Ev.op.snaps[i].rev]]
        IN ~CanRequestAll(Ev.op.kind, sel)
-    /\ UNCHANGED <<recs, worlds, env, chg, clock, status, waits, lanes, hasUndo, chgOf, rdy, panicked>>
+    /\ UNCHANGED <<recs, worlds, env, chg, clock, pass, status, waits, lanes, hasUndo, chgOf, rdy, panicked>>
     /\ PostAll
 
 TStart     == /\ IsEv("MStart") /\ Start(Ev.t) /\ PostStatus
